@@ -217,6 +217,7 @@ def oracle_c19(case, res, guard=True):
                 exp = [f"{r[1]} In-Out", shown[(r[1], tx)]] if (r[1], tx) in shown else None
                 if link != exp: return f"{r[1]} Tax row {r[2]}: {what} {tx} links to {link}, expected {exp}"
         if r[0] == "SU" and r[6] is not None:
+            if guard and not P.local_dates_monotone({"rows": case["assets"][r[2]]}): continue      # finding F15 (hypothesis LocalDatesMonotone)
             sheet, row = r[6]
             if sheet != f"{r[2]} Tax": return f"Summary row {r[1]} links to sheet {sheet}"
             det = [d for d in res["rows"] if d[0] == "TD" and d[1] == r[2]]; rows_a = {a: rws for a, rws in case["assets"].items()}
@@ -232,6 +233,27 @@ def oracle_c13(case, res, guard=True):
         for kind, s in (("IOIN", cd.in_transaction_set), ("IOOUT", cd.out_transaction_set), ("IOX", cd.intra_transaction_set)):
             got = [r[3] for r in res["rows"] if r[0] == kind and r[1] == a]; exp = [int(t.internal_id) for t in s]
             if got != exp: return f"{a}: {kind} rows {got} vs transactions of the window {exp}"
+        close = lambda x, y: abs(x - y) <= 1e-9 * max(1.0, abs(x), abs(y))
+        rows_a = case["assets"][a]; order = lambda t: sorted([r for r in rows_a if r[0] == t], key=lambda r: (r[2], r[1]))
+        run = 0; pre = {}
+        for r in order("IN"): run += r[7]; pre[r[1]] = run / U
+        for r in res["rows"]:
+            if r[0] == "IOIN" and r[1] == a and r[3] in pre and not close(r[6], pre[r[3]]): return f"{a} In-Out row {r[2]}: crypto-in running sum {r[6]} vs sum of all acquisitions up to that row {pre[r[3]]}"
+        run = 0; runf = 0; pre = {}
+        for r in order("OUT"): run += r[7]; runf += r[8]; pre[r[1]] = (run / U, runf / U)
+        for r in res["rows"]:
+            if r[0] == "IOOUT" and r[1] == a and r[3] in pre and not (close(r[6], pre[r[3]][0]) and close(r[7], pre[r[3]][1])): return f"{a} In-Out row {r[2]}: out running sums {r[6:8]} vs {pre[r[3]]}"
+        run = 0; pre = {}
+        for r in order("INTRA"): run += r[7] - r[8]; pre[r[1]] = run / U
+        for r in res["rows"]:
+            if r[0] == "IOX" and r[1] == a and r[3] in pre and not close(r[7], pre[r[3]]): return f"{a} In-Out row {r[2]}: transfer-fee running sum {r[7]} vs {pre[r[3]]}"
+        sold = {}
+        for g in cd.gain_loss_set:
+            if g.acquired_lot is not None: sold[int(g.acquired_lot.internal_id)] = sold.get(int(g.acquired_lot.internal_id), 0) + F(g.crypto_amount) / F(g.acquired_lot.crypto_in)
+        for k, r in enumerate([r for r in res["rows"] if r[0] == "IOIN" and r[1] == a]):
+            want = float(sold.get(r[3], 0)); got = r[4]
+            if got is None and (k == 0 or want > 1e-12): return f"{a} In-Out row {r[2]}: sold percentage blank, fractions shown consume {want} of the lot"
+            if got is not None and not close(got, want): return f"{a} In-Out row {r[2]}: sold percentage {got} vs {want} consumed by the fractions shown"
         gls = list(cd.gain_loss_set); det = [r for r in res["rows"] if r[0] == "TD" and r[1] == a]
         if len(det) != len(gls): return f"{a}: {len(det)} detail rows for {len(gls)} fractions"
         for r, g in zip(det, gls):
@@ -249,9 +271,16 @@ def oracle_c14(case, res, guard=True):
             "airdrop": "Airdrops", "hardfork": "Hard Forks", "income": "Income", "interest": "Interest", "mining": "Mining", "staking": "Staking", "wages": "Wages"}
     exp = []
     for a, cd in res["_a2c"].items():
-        for g in cd.gain_loss_set: exp.append((want[g.taxable_event.transaction_type.value], a, float(g.crypto_amount), float(g.taxable_event_fiat_amount_with_fee_fraction), float(g.fiat_gain)))
-    got = [(r[1], r[3], r[4], r[5], r[7]) for r in res["rows"]]
-    if sorted(got) != sorted(exp): return "rows of the tax report differ from the fractions routed by the property's sheet table"
+        for g in cd.gain_loss_set:
+            d = lambda t: [t.timestamp.year, t.timestamp.month, t.timestamp.day]
+            exp.append((want[g.taxable_event.transaction_type.value], a, float(g.crypto_amount), float(g.taxable_event_fiat_amount_with_fee_fraction), float(g.fiat_gain),
+                        float(g.fiat_cost_basis) if g.acquired_lot else None, bool(g.is_long_term_capital_gains()), d(g.taxable_event), d(g.acquired_lot) if g.acquired_lot else None))
+    got = [(r[1], r[3], r[4], r[5], r[7], r[6], r[8], r[9], r[10]) for r in res["rows"]]
+    key = lambda t: json.dumps(t, default=str)
+    got.sort(key=key); exp.sort(key=key)
+    if got != exp:
+        bad = [g for g in got if g not in exp][:1] + [e for e in exp if e not in got][:1]
+        return f"rows of the tax report differ from the fractions routed by the property's sheet table (sheet, asset, amount, proceeds, gain, cost, long, sold, acquired): {bad}"
     if len({(r[1], r[2]) for r in res["rows"]}) != len(res["rows"]): return "a (sheet, row) is used twice"
     if sorted(set(r[1] for r in res["rows"])) != res["sheets"]: return f"sheets present {res['sheets']} vs sheets with rows"
     return None
@@ -271,6 +300,19 @@ def oracle_c15(case, res, guard=True):
             if abs(s - float(unreal)) > 1e-9 * max(1.0, float(unreal)): return f"{a}: unrealized cost {s} vs acquired − realized {float(unreal)}"
     w = sum(r[7] for r in rowsOA)
     if rowsOA and abs(w - 1) > 1e-9: return f"cost-basis weights add up to {w}"
+    return None
+def oracle_c07(case, res, guard=True):
+    if res["status"] != "ok" or case["which"] != "full": return None
+    close = lambda x, y: abs(x - y) <= 1e-9 * max(1.0, abs(x), abs(y))
+    for a, cd in res["_a2c"].items():
+        tb = [r for r in res["rows"] if r[0] == "TB" and r[1] == a]; tt = [r for r in res["rows"] if r[0] == "TT" and r[1] == a]
+        exp = sorted([ACCTS.index((b.exchange, b.holder)), float(b.acquired_balance), float(b.sent_balance), float(b.received_balance), float(b.final_balance)] for b in cd.balance_set)
+        if sorted(r[3:] for r in tb) != exp: return f"{a}: account balance rows differ from the computed balances"
+        tot = {}
+        for r in tb: tot[ACCTS[r[3]][1]] = tot.get(ACCTS[r[3]][1], 0.0) + r[7]
+        if sorted(r[3] for r in tt) != sorted(tot): return f"{a}: per-holder total rows {sorted(r[3] for r in tt)} vs holders with accounts {sorted(tot)}"
+        for r in tt:
+            if not close(r[4], tot[r[3]]): return f"{a}: total of holder {r[3]} is {r[4]}, its accounts add up to {tot[r[3]]}"
     return None
 def fee_visible(case): return all(P.fee_fiat_visible({"rows": rows}) for rows in case["assets"].values())
 def oracle_c20(case, res, guard=True):
@@ -293,7 +335,7 @@ def oracle_c20(case, res, guard=True):
             prev = y
     if set(js) != exp: return f"sheets {sorted(js)} vs asset-years {sorted(exp)}"
     return None
-ORACLES = {"C13": oracle_c13, "C14": oracle_c14, "C15": oracle_c15, "C19": oracle_c19, "C20": oracle_c20}
+ORACLES = {"C07": oracle_c07, "C13": oracle_c13, "C14": oracle_c14, "C15": oracle_c15, "C19": oracle_c19, "C20": oracle_c20}
 
 def shrink_candidates(case):
     for a in list(case["assets"]):
@@ -307,7 +349,10 @@ def shrink_candidates(case):
     if case["from"]: yield dict(case, **{"from": None})
     if case["to"]: yield dict(case, to=None)
 def nontrivial(case, i): return i["status"] == "ok" and len(i.get("rows", [])) >= 3
-def hypotheses_failed(case, prop): return ["FeeFiatVisible"] if prop in ("C20", "C16") and case["which"] == "jp" and not fee_visible(case) else []
+def hypotheses_failed(case, prop):
+    h = ["FeeFiatVisible"] if prop in ("C20", "C16") and case["which"] == "jp" and not fee_visible(case) else []
+    if prop == "C19" and any(not P.local_dates_monotone({"rows": rows}) for rows in case["assets"].values()): h.append("LocalDatesMonotone")
+    return h
 def note_stats(case, i, st):
     st["which:" + case["which"]] += 1; st["status:" + i["status"].split(":")[0]] += 1; st["assets"] += len(case["assets"])
     st["window:" + ("none" if not case["from"] and not case["to"] else "from+to" if case["from"] and case["to"] else "from" if case["from"] else "to")] += 1
